@@ -23,8 +23,8 @@ VERIF = os.path.dirname(os.path.dirname(os.path.abspath(__file__)))
 PY = sys.executable
 
 TIERS = {
-    'C16': {'quick': {'runs': 2400, 'det': 48, 'sweeps': 25, 'matrix': 13, 'max_seconds': 700},
-            'thorough': {'runs': 60000, 'det': 512, 'sweeps': 400, 'matrix': 338, 'max_seconds': 5000}},
+    'C16': {'quick': {'runs': 2400, 'det': 48, 'sweeps': 28, 'matrix': 13, 'conflict': 6, 'max_seconds': 700},
+            'thorough': {'runs': 60000, 'det': 512, 'sweeps': 400, 'matrix': 338, 'conflict': 160, 'max_seconds': 5000}},
     'C17': {'quick': {'runs': 6000, 'det': 48, 'fresh': 48, 'max_seconds': 700},
             'thorough': {'runs': 150000, 'det': 512, 'fresh': 300, 'max_seconds': 5000}},
 }
@@ -110,10 +110,22 @@ def _sweep(prop, tier, master, j, part):
     from . import c16
     from .workload import call_repr
     ctx = CTX
+    t_start = time.time()
     rng = random.Random(run_seed(master, prop, tier + '-sweep', j))
     nk = TIERS[prop][tier].get('sweeps', 0)
     fpair = None
-    if j >= nk:
+    nm = TIERS[prop][tier].get('matrix', 0)
+    conflict = None
+    if j >= nk + nm:
+        # conflict-directed pair: two calls whose solo executions write the same piece of library state
+        kind = 'conflict'
+        spec = c16.gen_conflict_sweep(ctx, rng, tier)
+        if spec is None:
+            return {'sweep': j, 'part': part, 'A': '-', 'B': '-', 'len_A': 0, 'len_B': 0, 'kind': kind, 'warm_calls': 0,
+                    'capacity_filler': 0, 'points': 0, 'of': 0, 'exhaustive': False, 'pairs': [], 'conflict': None}, None
+        conflict = spec['conflict']
+        fpair = ('conflict', 'conflict')
+    elif j >= nk:
         # function-pair matrix: the (j - nk)-th ordered pair of public functions
         fpair = c16.matrix_pair(j - nk, master)
         kind = 'matrix'
@@ -141,8 +153,34 @@ def _sweep(prop, tier, master, j, part):
         ks = list(range(la + 1))
     exhaustive = True
     cap = (2000 if gran == 'line' else 1200) if tier == 'quick' else 6000
+    if gran == 'line':
+        # a point costs about la + lb steps: long pairs get fewer points (chosen rare-line-first, below)
+        cap = max(500 if tier == 'quick' else 2000, min(cap, (6_000_000 if tier == 'quick' else 60_000_000) // max(1, la + lb)))
+    else:
+        cap = max(300 if tier == 'quick' else 2000, min(cap, (16_000_000 if tier == 'quick' else 200_000_000) // max(1, la + lb)))
     if len(ks) > cap:
-        ks = sorted(rng.sample(ks, cap))
+        # too long for every point: all occurrences of the rarely executed lines first -- round-robin over the distinct
+        # lines of A's solo trace, those that touch process-global state before the others (a line executed once per
+        # call weighs as much as one executed a thousand times) -- for half of the cap, the rest uniformly
+        chosen = []
+        if gran == 'line':
+            tr = ctx.oracle(spec['threads'][0][0], want_trace=True, gran='line')['trace'] or []
+            occ = {}
+            for idx, l in enumerate(tr):
+                occ.setdefault(l, []).append(idx)
+            lines = sorted(occ, key=lambda l: (l not in ctx.hot, len(occ[l]), l))
+            seen_k = set()
+            rank = 0
+            while len(chosen) < cap // 2 and any(rank < len(occ[l]) for l in lines):
+                for l in lines:
+                    if rank < len(occ[l]):
+                        for k in (occ[l][rank], occ[l][rank] + 1):
+                            if k not in seen_k and len(chosen) < cap // 2:
+                                seen_k.add(k)
+                                chosen.append(k)
+                rank += 1
+        rest = [k for k in ks if k not in set(chosen)]
+        ks = sorted(set(chosen) | set(rng.sample(rest, min(len(rest), cap - len(chosen)))))
         exhaustive = False
     mine = ks[part::SWEEP_PARTS]
     pairs = set()
@@ -158,8 +196,8 @@ def _sweep(prop, tier, master, j, part):
                           'results': res2['results'], 'post': res2['post']}
         pairs.update(tuple(p) for p in res['switch_pairs'])
     return {'sweep': j, 'part': part, 'A': call_repr(spec['threads'][0][0], 70), 'B': call_repr(spec['threads'][1][0], 70),
-            'len_A': la, 'len_B': lb, 'kind': kind, 'warm_calls': len(spec['warm']), 'capacity_filler': (spec.get('bulk') or {}).get('n', 0), 'points': len(mine), 'of': len(ks),
-            'exhaustive': exhaustive, 'pairs': sorted(pairs), **({'fpair': list(fpair), 'gran': gran} if fpair else {})}, None
+            'len_A': la, 'len_B': lb, 'kind': kind, 'warm_calls': len(spec['warm']), 'capacity_filler': (spec.get('bulk') or {}).get('n', 0), 'points': len(mine), 'of': len(ks), 'cpu_s': round(time.time() - t_start, 1),
+            'exhaustive': exhaustive, 'pairs': sorted(pairs), **({'conflict': conflict, 'gran': gran} if conflict else {'fpair': list(fpair), 'gran': gran} if fpair else {})}, None
 
 
 def _h8(x):
@@ -463,17 +501,30 @@ def main(argv=None):
     max_s = args.max_seconds or cfg.get('max_seconds') or 0
     deadline = (t0 + max_s) if max_s else None
     skipped = 0
+    if prop == 'C16' and cfg.get('conflict'):
+        # write sets of a pool of calls, computed once (by cold forks of this template) and inherited by the workers
+        from . import c16 as _c16
+        tp = time.time()
+        CTX.conflict_pool = _c16.conflict_pool(CTX, random.Random(run_seed(master, prop, 'conflict-pool', 0)))
+        agg.conflict_pool = {k: v for k, v in CTX.conflict_pool.items() if k not in ('calls', 'cands')}
+        agg.conflict_pool.update({'calls_in_pool': len(CTX.conflict_pool['calls']), 'seconds': round(time.time() - tp, 1)})
     ex = ProcessPoolExecutor(args.workers, mp_context=mpctx)
     try:
         futs = {}
         sweep_futs = {}
         fresh_fut_early = ex.submit(_fresh_batch, prop, tier, master, cfg['fresh']) if cfg.get('fresh') else None
-        sweep_tasks = [(j, part) for j in range((cfg.get('sweeps', 0) + cfg.get('matrix', 0)) if prop == 'C16' else 0)
+        sweep_tasks = [(j, part) for j in range((cfg.get('sweeps', 0) + cfg.get('matrix', 0) + cfg.get('conflict', 0)) if prop == 'C16' else 0)
                        for part in range(SWEEP_PARTS)]
         if prop == 'C16' and cfg.get('matrix'):
             # kind sweeps and function-pair sweeps alternate, so that a wall budget cuts both proportionally
-            nk_, nm_ = max(1, cfg.get('sweeps', 0)), max(1, cfg.get('matrix', 0))
-            sweep_tasks.sort(key=lambda t: ((t[0] / nk_) if t[0] < cfg.get('sweeps', 0) else ((t[0] - cfg.get('sweeps', 0)) / nm_), t[0], t[1]))
+            nk0, nm0, nc0 = cfg.get('sweeps', 0), cfg.get('matrix', 0), cfg.get('conflict', 0)
+            def frac(j):
+                if j < nk0:
+                    return j / max(1, nk0)
+                if j < nk0 + nm0:
+                    return (j - nk0) / max(1, nm0)
+                return (j - nk0 - nm0) / max(1, nc0)
+            sweep_tasks.sort(key=lambda t: (frac(t[0]), t[0], t[1]))
         # the first 48 chunks first (they carry the runs the determinism self-test repeats), then sampled runs
         # and sweep slices interleaved, so that a wall budget cuts both proportionally
         every = max(1, len(chunks) // max(1, len(sweep_tasks))) if sweep_tasks else 0
